@@ -35,7 +35,7 @@ NoScn == [sc |-> -1, cls |-> "", ops |-> <<>>]
 
 StatKeys == {"random", "sid", "suites", "sni", "nosni", "ext", "noext", "front",
              "ApplyPreset", "Build", "BuildNoSess", "SetClientRandom", "SetSNI", "RemoveSNI", "EditSuites", "EditSessionId",
-             "ExtInsert", "ExtRemove", "ExtALPN", "ExtSNIField", "Break", "unbuildable", "refused", "build_failed", "build_err_unexplained", "sni_literal", "unprotected", "scn", "ch1", "ch2", "hrr", "hrr_cookie", "done", "done_hrr", "failed", "rebuilt", "seeded", "psk"}
+             "ExtInsert", "ExtRemove", "ExtALPN", "ExtSNIField", "InPlace", "inplace_found", "Break", "unbuildable", "refused", "build_failed", "build_err_unexplained", "sni_literal", "unprotected", "scn", "ch1", "ch2", "hrr", "hrr_cookie", "done", "done_hrr", "failed", "rebuilt", "seeded", "psk"}
 Bump(ks) == stats' = [k \in StatKeys |-> stats[k] + (IF k \in ks THEN 1 ELSE 0)]
 
 Init == /\ l = 1 /\ rej = {} /\ scn = NoScn /\ stats = [k \in StatKeys |-> 0] /\ atsend = NoSer /\ berr = ""
@@ -65,8 +65,22 @@ OnScn(ev) ==
 NewSuites(before, o) == CASE o.kind = "append" -> Append(before, o.v)
                           [] o.kind = "droplast" -> IF before = <<>> THEN before ELSE SubSeq(before, 1, Len(before) - 1)
                           [] OTHER -> o.list
+Repl(x, b, b2) == IF x = b THEN b2 ELSE b
+\* a same-length in-place edit: the logged field after the edit is the field before it with one element exchanged
+InPlaceBound(o, ev) ==
+  IF ev.found = 0 THEN TRUE
+  ELSE IF o.what = "alpn" THEN /\ Len(ev.after) = Len(ev.before) /\ Len(ev.before) >= 1 /\ Len(ev.before[1]) >= 1
+                               /\ \A i \in 2..Len(ev.before) : ev.after[i] = ev.before[i]
+                               /\ ev.after[1] = [ev.before[1] EXCEPT ![Len(ev.before[1])] = Repl(@, o.b, o.b2)]
+  ELSE IF o.what \in {"groups", "versions"} THEN Len(ev.before) >= 1 /\ ev.after = [ev.before EXCEPT ![Len(ev.before)] = Repl(@, o.b, o.b2)]
+  ELSE Len(ev.before) >= 1 /\ ev.after = [ev.before EXCEPT ![1] = Repl(@, o.b, o.b2)]
+InPlaceBody(o, ev) == CASE o.what = "alpn" -> Vec16(ProtoList(ev.after))
+                        [] o.what = "groups" -> Vec16(U16List(ev.after))
+                        [] o.what = "versions" -> Vec8(U16List(ev.after))
+                        [] OTHER -> ev.after
 \* the harness edits Hello / Extensions itself: what it logged must be what the scenario asked for
-Bound(o, ev) == CASE o.op = "EditSuites" -> ev.suites = NewSuites(ev.before, o)
+Bound(o, ev) == CASE o.op = "InPlace" -> InPlaceBound(o, ev)
+                  [] o.op = "EditSuites" -> ev.suites = NewSuites(ev.before, o)
                   [] o.op = "EditSessionId" -> ev.sid = o.sid
                   [] o.op = "ExtInsert" -> ev.at = 0 /\ ev.nexts = ev.nbefore + 1
                   [] OTHER -> TRUE
@@ -84,8 +98,9 @@ OnCall(ev) ==
      ELSE IF ev.err # "" \/ ev.panic # "" THEN Ignore /\ UNCHANGED stats          \* the call refused: no effect
      ELSE IF ~Bound(o, ev) THEN Reject("binding", o.op) /\ UNCHANGED stats
      ELSE IF phase # "edit" THEN Reject("order", "call-after-handshake-start") /\ UNCHANGED stats
-     ELSE /\ Bump({o.op} \cup (IF ~Protected /\ o.op \in {"SetClientRandom", "EditSuites", "EditSessionId", "ExtInsert", "ExtRemove", "ExtALPN", "ExtSNIField", "Break"}
-                               THEN {"unprotected"} ELSE {}))
+     ELSE /\ Bump({o.op} \cup (IF ~Protected /\ o.op \in {"SetClientRandom", "EditSuites", "EditSessionId", "ExtInsert", "ExtRemove", "ExtALPN", "ExtSNIField", "Break", "InPlace"}
+                               THEN {"unprotected"} ELSE {})
+                         \cup (IF o.op = "InPlace" /\ Protected /\ ev.found >= 1 THEN {"inplace_found"} ELSE {}))
           /\ CASE o.op = "ApplyPreset"     -> ApplyPreset /\ Judge
                [] o.op = "Build"           -> Build(TRUE, S(ev.sha, BadHello)) /\ Judge
                [] o.op = "BuildNoSess"     -> Build(FALSE, S(ev.sha, BadHello)) /\ Judge
@@ -99,6 +114,8 @@ OnCall(ev) ==
                [] o.op = "EditSessionId"   -> EditSessionId(o.sid) /\ Judge
                [] o.op = "ExtInsert"       -> ExtInsert(o.id, o.data) /\ Judge
                [] o.op = "ExtRemove"       -> ExtRemove(o.t) /\ Judge
+               [] o.op = "InPlace"         -> (IF o.what = "sid" THEN (IF ev.found >= 1 THEN EditSessionId(ev.after) ELSE UNCHANGED bvars)
+                                               ELSE InPlaceExt(o.id, InPlaceBody(o, ev), ev.found >= 1)) /\ Judge
                [] o.op = "Break"           -> Break(IF o.what = "shortrandom" THEN <<"random">> ELSE <<"break", o.what>>) /\ Judge
                [] o.op = "ExtALPN"         -> ExtALPN(Vec16(ProtoList(o.protos)), ev.found >= 1) /\ Judge
                [] OTHER -> Reject("binding", "unknown-op")
